@@ -15,23 +15,6 @@ namespace Verif.Props.C05
 open Verif.Model.StdioIn Verif.Lemmas.StdioIn
 variable {μ : Type}
 
-/-- the text is made of Unicode scalar values (its encoding is valid UTF-8) -/
-def ValidText (text : List Nat) : Prop := ∀ c ∈ text, isScalar c = true
-
-/-- a line the child wrote: valid text without a raw LF (it may contain CR, U+0085, U+2028,
-U+2029, VT, FF, … anywhere) -/
-def ValidItem (it : Item) : Prop := ValidText it.text ∧ LF ∉ it.text
-
-theorem validText_render (items : List Item) (h : ∀ it ∈ items, ValidItem it) :
-    ValidText (render items) := by
-  intro c hc
-  simp only [render, List.mem_flatMap] at hc
-  obtain ⟨it, hit, hc⟩ := hc
-  simp only [Item.rendered, List.mem_append] at hc
-  rcases hc with hc | hc
-  · exact (h it hit).1 c hc
-  · split at hc <;> simp [CR, LF] at hc <;> rcases hc with rfl | rfl <;> decide
-
 /-- what one written line contributes to the read stream -/
 def accepted (cfg : Cfg μ) (it : Item) : List μ := delivered (processLine cfg true it.text)
 
